@@ -1,13 +1,15 @@
 #!/bin/sh
-# usage: tools/seed8.sh <Axx>  - confirm a role/area change of batch 8, copy it to seeded/<prop>-8<x>, try it
+# usage: [B=8] tools/seed8.sh <Axx|Rxx>  - confirm a role/area change of batch $B (/tmp/seed$B), copy it to
+# seeded/<prop>-<B>x<k>, try it against the check of the property its author named
+B=${B:-8}
 a=$1
-out=/tmp/seed8/out_$a
+out=/tmp/seed$B/out_$a
 prop=$(python3 -c "import json;print(json.load(open('$out/meta.json'))['property'].strip()[:3])")
 demo=$(ls $out | grep -E "^(run_)?demo.*\.(py|sh)$" | head -1)
 case "$demo" in *.py) run="python3 $out/$demo";; *) run="sh $out/$demo";; esac
-/verif/tools/confirm_seed.sh /tmp/seed8/$a $out $run | tail -1
-sfx=$(echo $a | tr 'A' 'a' | sed 's/a0*//')
-d=/verif/seeded/$prop-8x$sfx; mkdir -p $d
+/verif/tools/confirm_seed.sh /tmp/seed$B/$a $out $run | tail -1
+sfx=$(echo $a | sed 's/^[A-Z]0*//')
+d=/verif/seeded/$prop-${B}x$sfx; mkdir -p $d
 for f in $out/*; do case "$f" in *.log|*/__pycache__) ;; *) [ -f "$f" ] && cp "$f" $d/;; esac; done
 echo "--> $d"
 SEEDS="${SEEDS:-1 2}" /verif/tools/try_seed.sh $d $prop 2>&1 | grep -E "^OK|^VIOLATION|kind=" | cut -c1-220
